@@ -144,7 +144,7 @@ EXTRA5 = {
  "C03": ("; id/DID binding of stored documents", " A caller-supplied document is stored under DID d only if document.id == d."),
  "C05": ("; id/DID binding of stored documents", " A caller-supplied document is stored under DID d only if document.id == d."),
  "C07": ("; exceptions of the blocked-address set", " Only the gov module account is taken off the blocked set."),
- "C08": ("; raw pnft store writes on handler call trees; class-delete guard", " PNFT handlers write only state the export walks; a class is deleted only at zero supply."),
+ "C08": ("; maintenance of module-owned pnft store families on creation and removal; class-delete guard", " A store family the creating handler writes is maintained by the removing handler; a class is deleted only at zero supply."),
  "C09": ("; typed-key position/field agreement; in-place writes into store values", " Distinct genesis keys decode to distinct store keys; store values are not modified in place."),
  "C10": ("; clock/random sources reaching state; upgrade-handler-shaped functions in scope", " A block executed again after a restart sees the same inputs; handler wrappers do no file I/O."),
  "C11": ("; active-only answers of the read operation", " The read operation answers active entries only."),
